@@ -165,9 +165,12 @@ def matrix_package(quick: bool):
     if steps:
         protos.append(Proto("Mx%d" % len(protos), steps))
     # implicit-tag unions over plain names (documented examples)
+    Gen = Rec("MxGen", [("id", P("int32")), ("value", TP("T"))], ("T",))
+    protos.append(Proto("MxGenericNullable", [("a", S(N("MxGen", (Opt(P("int32")),)))), ("b", S(N("MxGen", (U(((None, P("int32")), (None, P("string"))), True),)))),
+                                             ("c", S(N("MxRec")))]))
     protos.append(Proto("MxImplicit", [("a", U(((None, P("int32")), (None, P("bool"))))), ("b", U(((None, P("string")), (None, N("MxEnum"))))),
                                       ("c", U(((None, P("float32")), (None, P("float64"))))), ("d", S(U(((None, P("int32")), (None, N("MxRec"))), True)))]))
-    return Pkg("Matrix", [Rc, Rc2, E1, F1] + protos)
+    return Pkg("Matrix", [Rc, Rc2, E1, F1, Gen] + protos)
 
 
 def run_matrix(ctx, quick):
@@ -188,6 +191,10 @@ def run_matrix(ctx, quick):
                 if isinstance(t, U) and not isinstance(t, S):
                     ci = k % len(t.cases)
                     vals[i] = (ci, vg.gen(c.fq(t.cases[ci][1]), 1))
+            if proto.name == "MxGenericNullable":
+                vals[0] = [[i, (None if i % 2 else (0, i * 7))] for i in range(6)]
+                vals[1] = [[i, (None if i % 3 == 1 else ((0, i) if i % 3 == 0 else (1, "s%d" % i)))] for i in range(7)]
+                vals[2] = [[i, (None if i % 2 else (0, "t%d" % i))] for i in range(6)]
             data = c.encode_stream(proto, sch, vals)
             ctx.case(("matrix", proto.name, k))
             tag = "union-matrix %s set %d" % (proto.name, k)
